@@ -99,6 +99,8 @@ def gen_table(rng, big=False):
         if not nonpk:
             break
         k = rng.sample([c["name"] for c in nonpk], min(len(nonpk), rng.choice([1, 1, 2])))
+        if any(set(u["cols"]) == set(k) for u in uniques):
+            continue
         uniques.append({"name": None if rng.random() < 0.15 else "uq_%d" % j, "cols": k})
     for j in range(rng.choice([0, 0, 1, 1, 2])):
         if not intcols:
@@ -114,8 +116,10 @@ def gen_table(rng, big=False):
             break
         c = rng.choice(intcols)
         selfref = rng.random() < 0.4
-        fks.append({"name": None if rng.random() < 0.3 else "fk_%d" % j, "cols": [c],
-                    "rtable": name if selfref else "parent", "rcols": ["id"]})
+        rt = name if selfref else "parent"
+        if any(f["cols"] == [c] and f["rtable"] == rt for f in fks):
+            continue
+        fks.append({"name": None if rng.random() < 0.3 else "fk_%d" % j, "cols": [c], "rtable": rt, "rcols": ["id"]})
     for j in range(rng.choice([0, 1, 1, 2])):
         k = rng.sample([c["name"] for c in cols], min(len(cols), rng.choice([1, 1, 2])))
         indexes.append({"name": "ix_%s_%d" % (name[:6], j), "cols": k, "unique": rng.random() < 0.2})
@@ -178,6 +182,11 @@ def gen_ops(rng, t, n=None, wild=0.08):
         consts.append((t["pk"]["name"], "primary"))
     idxs = [i["name"] for i in t["indexes"]]
     ops = []
+    checked = {k["pred"]["col"] for k in t["checks"] if k["pred"]}   # current names of columns some CHECK mentions
+    retyped = set()
+    idx0 = {c["name"]: i for i, c in enumerate(t["cols"])}
+    has_null = {c["name"]: any(r[idx0[c["name"]]] is None for r in t["rows"]) for c in t["cols"]}
+    all_int = {c["name"]: all(r[idx0[c["name"]]] is None or "i" in r[idx0[c["name"]]] for r in t["rows"]) for c in t["cols"]}
     n = n or rng.choice([1, 1, 2, 2, 3, 4])
     kinds = ["add_column"] * 5 + ["drop_column"] * 3 + ["alter_column"] * 5 + ["add_unique", "add_check", "add_fk",
              "drop_constraint", "drop_constraint", "create_index", "create_index", "drop_index", "add_pk"]
@@ -223,8 +232,10 @@ def gen_ops(rng, t, n=None, wild=0.08):
                     nn = rng.choice([x for x in cur if x != c])  # collision
                 o["new_name"] = nn
             if "type" in what:
-                ty = rng.choice(TYPE_TOKENS + ["JSON"])
+                # the model evaluates CHECKs on integers only: a column some CHECK mentions stays integer typed
+                ty = rng.choice(INTS) if c in checked else rng.choice(TYPE_TOKENS + ["JSON"])
                 o["type"] = {"ty": ty, "aff": aff_of_token(ty)}
+                retyped.add(c)
             if what == "nullable":
                 o["nullable"] = rng.random() < 0.4
             if what == "default":
@@ -232,6 +243,10 @@ def gen_ops(rng, t, n=None, wild=0.08):
                 o["default"] = {"set": rng.choice(DEFAULTS.get(f, ["0"]) + [None])}
             ops.append(o)
             if o["new_name"] and o["new_name"] not in cur:
+                if c in checked:
+                    checked.add(o["new_name"])
+                if c in retyped:
+                    retyped.add(o["new_name"])
                 cur[cur.index(c)] = o["new_name"]
                 key[o["new_name"]] = key.pop(c)
                 tys[o["new_name"]] = tys.pop(c, "INTEGER")
@@ -242,10 +257,11 @@ def gen_ops(rng, t, n=None, wild=0.08):
             ops.append({"op": "add_unique", "name": "uq_new%d" % len(ops), "cols": [c if by_new else key[c] for c in cs]})
             consts.append((ops[-1]["name"], "unique"))
         elif k == "add_check" and cur:
-            ic = [c for c in cur if tys.get(c) in INTS]
+            ic = [c for c in cur if tys.get(c) in INTS and c not in retyped and all_int.get(key.get(c, c), True)]
             if not ic:
                 continue
             c = rng.choice(ic)
+            checked.add(c)
             pred = {"col": c, "op": rng.choice([">", ">=", "!=", "<"]), "k": rng.choice([-(2 ** 41), 0, 1, 3])}
             ops.append({"op": "add_check", "name": "ck_new%d" % len(ops), "text": "%s %s %d" % (c, pred["op"], pred["k"]),
                         "mentions": [c], "pred": pred})
@@ -256,7 +272,11 @@ def gen_ops(rng, t, n=None, wild=0.08):
                         "rtable": rng.choice(["parent", t["name"]]), "rcols": ["id"]})
             consts.append((ops[-1]["name"], "foreignkey"))
         elif k == "add_pk" and cur and rng.random() < 0.5:
-            c = rng.choice(cur)
+            # a NULL in an INTEGER PRIMARY KEY column is replaced by a fresh rowid by SQLite itself: not generated
+            pc = [c for c in cur if not has_null.get(key.get(c, c), True)]
+            if not pc:
+                continue
+            c = rng.choice(pc)
             ops.append({"op": "add_pk", "name": "pk_new", "cols": [key[c]]})
         elif k == "drop_constraint":
             if consts and rng.random() > wild:
